@@ -572,6 +572,9 @@ class StickyAssignmentExecutor:
 
                 if (
                     partition in self.previous_assignment
+                    # the previous owner may have dropped the topic since
+                    and self.previous_assignment[partition].consumer
+                    in self.partition_to_all_potential_consumers[partition]
                     and len(self.current_assignment[consumer])
                     > len(
                         self.current_assignment[
